@@ -44,7 +44,12 @@ LEVEL_NOTE = ("Which form the signal of an undefined statistic takes (no result 
               "documented statistics are not defined for N_obs = 0; (B) synthetic catalogs changed in place by the caller AFTER "
               "forecast.expected_rates was filled - the text says the statistics are computed from the forecast's mean gridded "
               "rates, expected_rates is a public member the caller may set, and the quantifier covers storage configurations, not "
-              "caller-side mutation between cache and test. Both readings are stated in notes/C10.md.")
+              "caller-side mutation between cache and test. Both readings are stated in notes/C10.md."
+              " Outside the property: derived-method hook - user catalog subclasses are exercised only through overrides of "
+              "the BASIC DATA ACCESSORS (get_magnitudes / get_longitudes / get_latitudes / get_epoch_times / "
+              "get_number_of_events / __len__); which derived method the library calls internally, and whether it uses the "
+              "return value of an in-place method (filter / filter_spatial / apply_mct of a subclass returning a new catalog), "
+              "is not stated by the property (seeded C10_15 is of that kind and is not reported).")
 DESIGN_REF = "DESIGN.md §4 C10"
 TECHNIQUE = "Lean 4 model generic over RealOps (Float driver / real-number theorems) + differential correspondence + oracle"
 
@@ -99,6 +104,10 @@ RULE = ("catalog forecasts of 1..30 synthetic catalogs (each empty with a per-ca
         "the observed catalog object], [the observed catalog changed in place by the caller], remaining tests, repeated "
         "tests, closing number test; cached expected rates compared after every test; forecasts carrying filters with "
         "apply_filters=True; one case per run with more than 65535 events in one cell / bin / catalog; "
+        "round-7 trigger kinds: the caller's numeric state (numpy errors raise, decimal precision 3) for half of the cases; "
+        "observation / list-backed forecast replaced by copy / deepcopy / pickle image; a rejected call on the same forecast "
+        "first; the observation being one of the forecast's catalog objects; synthetic catalogs of a user subclass overriding "
+        "the basic data accessors (outside the property: derived-method hook - overrides of filter / filter_spatial / apply_mct); "
         "call forms: options by keyword / every argument by position / every argument by keyword; after every test the "
         "returned test distribution and the arrays read from expected_rates are overwritten in place by the caller, the "
         "observed catalog and the synthetic catalogs must be bit for bit unmodified; "
@@ -163,6 +172,23 @@ def quiet():
     with contextlib.redirect_stdout(io.StringIO()):
         with numpy.errstate(all="ignore"):
             yield
+
+
+ERRSTATES = {"div-inv": dict(divide="raise", invalid="raise"), "all": dict(all="raise")}
+_FORCE_STATE = os.environ.get("C10_FORCE_ERRSTATE")         # probing aid
+
+
+@contextlib.contextmanager
+def numstate(name, ok=True):
+    """(k) the CALLER's global numeric state during a test: numpy floating-point errors raise, decimal precision 3"""
+    name = _FORCE_STATE or name
+    if not name or not ok:
+        yield
+        return
+    import decimal
+    with numpy.errstate(**ERRSTATES[name]), decimal.localcontext() as ctx:
+        ctx.prec = 3
+        yield
 
 
 @contextlib.contextmanager
@@ -328,6 +354,14 @@ def gen_case(rng, tier):
     # how the arguments are handed over: keywords for the options (as the documentation shows), everything by position,
     # everything by keyword (the signatures are part of the public API)
     case["call_form"] = rng.choice(["kw", "kw", "kw", "positional", "positional", "kw-all"])
+    # (j) synthetic catalogs of a user subclass overriding the basic data accessors (in-memory forecasts)
+    case["user_catalogs"] = rng.random() < 0.35
+    # (k) the caller's global numeric state while the tests run
+    case["errstate"] = rng.choice([None, None, None, "div-inv", "div-inv", "all"])
+    # (h) the forecast / the observation is a copy of the object that was built
+    case["copy_form"] = rng.choice([None, None, None, "copy", "deepcopy", "pickle"])
+    # (i) a rejected call on the same objects first
+    case["bad_first"] = rng.choice([None, None, None, "n-none", "m-none"])
     # default arguments of the tests: verbose=True (progress lines of N / S / M / PL) and seed=None (the resampled tests
     # then continue the global numpy stream, which the harness seeds itself with `seed` right before the call)
     case["verbose"] = rng.random() < 0.25
@@ -348,7 +382,7 @@ def gen_case(rng, tier):
     elif rng.random() < 0.12:
         # (c) filters carried by the forecast and applied while it is iterated (apply_filters=True), the evaluation being
         # the first pass: list-backed and streamed forecasts alike
-        case["fc_filter"] = dict(k0=rng.randint(0, K - 1), as_list=rng.random() < 0.5)
+        case["fc_filter"] = dict(k0=rng.randint(0, K - 1), as_list=rng.random() < 0.5, spatial=rng.random() < 0.4)
     # (d) the SESSION: tests of this forecast, interleaved with tests of a second forecast B that shares the region object
     # and the observed catalog object, an in-place change of the observed catalog by the caller, repeated tests, and a
     # closing number test (it shows any catalog a test trimmed)
@@ -373,6 +407,15 @@ def gen_case(rng, tier):
         if not parked:
             sess["obsmut"] = om
     case["session"] = sess
+    # (l) the observed catalog IS one of the forecast's own catalog objects (in-memory forecasts whose catalogs carry the region)
+    if kind == "copy" and obs and mode.startswith("memory") and not case.get("premut") and not case.get("fc_filter") \
+            and not case.get("obs_out") and not sess.get("obsmut") and rng.random() < 0.6:
+        js = [j for j, sm in enumerate(sims) if sorted(sm) == sorted(case["obs"])]
+        if js:
+            case["obs_is_member"] = js[0]
+            case["cat_region"] = True
+            case["copy_form"] = None
+            case["both_modes"] = False
     return case
 
 
@@ -558,14 +601,49 @@ def event_rows(case, origins, mags, events):
     return rows
 
 
-def make_catalog(case, region, origins, mags, events, with_region=True, cid=None):
+_USER_CLASSES = {}
+
+
+def value_catalog_class():
+    """(j) a USER SUBCLASS of the library's catalog that overrides the BASIC DATA ACCESSORS consistently (what the
+    repository's own MockCatalog does): get_magnitudes / get_longitudes / get_latitudes / get_epoch_times /
+    get_number_of_events return the catalog's own values (as fresh arrays), `__len__` is defined (an empty catalog is
+    falsy).  NOT overridden: derived methods and in-place methods (filter, filter_spatial, apply_mct, spatial_counts, ...):
+    which derived method the library calls internally and whether it uses the RETURN VALUE of an in-place method is not
+    part of the property ("outside the property: derived-method hook"; seeded C10_15 is of that kind and is not reported)."""
+    if "value" not in _USER_CLASSES:
+        from csep.core.catalogs import CSEPCatalog
+
+        class AccessorCatalog(CSEPCatalog):
+            def get_magnitudes(self):
+                return numpy.array(CSEPCatalog.get_magnitudes(self), copy=True)
+
+            def get_longitudes(self):
+                return numpy.array(CSEPCatalog.get_longitudes(self), copy=True)
+
+            def get_latitudes(self):
+                return numpy.array(CSEPCatalog.get_latitudes(self), copy=True)
+
+            def get_epoch_times(self):
+                return numpy.array(CSEPCatalog.get_epoch_times(self), copy=True)
+
+            def get_number_of_events(self):
+                return int(CSEPCatalog.get_number_of_events(self))
+
+            def __len__(self):
+                return int(self.event_count)
+        _USER_CLASSES["value"] = AccessorCatalog
+    return _USER_CLASSES["value"]
+
+
+def make_catalog(case, region, origins, mags, events, with_region=True, cid=None, user_class=False):
     from csep.core.catalogs import CSEPCatalog
     rows = event_rows(case, origins, mags, events)
     data = [(str(i), 1000 * (i + 1), lat, lon, 5.0, mag) for i, (lon, lat, mag) in enumerate(rows)]
     kw = dict(region=region) if with_region else {}
     if cid is not None:
         kw["catalog_id"] = cid
-    return CSEPCatalog(data=data, **kw)
+    return (value_catalog_class() if user_class else CSEPCatalog)(data=data, **kw)
 
 
 def write_csv(case, origins, mags, path):
@@ -590,8 +668,11 @@ def build_forecast(case, mode, region, origins, mags, tmpdir):
     if ff:
         flt = f"magnitude >= {float(mags[ff['k0']])!r}"
         kw = dict(filters=[flt] if ff["as_list"] else flt, apply_filters=True)
+        if ff.get("spatial"):
+            kw["filter_spatial"] = True        # every synthetic event lies inside the region: no event is removed
     if mode.startswith("memory"):
-        cats = [make_catalog(case, region, origins, mags, evs, with_region=case["cat_region"], cid=j)
+        cats = [make_catalog(case, region, origins, mags, evs, with_region=case["cat_region"], cid=j,
+                             user_class=bool(case.get("user_catalogs")))
                 for j, evs in enumerate(case["sims"])]
         if mode == "memory-noncat":
             return CatalogForecast(catalogs=cats, region=region, name="f", **kw)
@@ -751,7 +832,9 @@ def run_tests(case, fc, obs, tests, fresh):
         cats = getattr(fc, "catalogs", None)
         sims_before = [catalog_bytes(c) for c in cats] if isinstance(cats, list) and not case.get("fc_filter") else None
         try:
-            with quiet(), record_choice(rec):
+            # an all-empty forecast divides by a zero event total (outside the raising state: the unchanged tree is not
+            # robust there and the result is judged by the NU == 0 rules)
+            with quiet(), record_choice(rec), numstate(case.get("errstate"), ok=case["_n_union"] > 0):
                 if form == "positional":
                     # every argument by position, in the order of the signatures
                     pos = {"n": (ce.number_test, (vb,)), "s": (ce.spatial_test, (vb,)), "m": (ce.magnitude_test, (vb,)),
@@ -814,15 +897,58 @@ def run_tests(case, fc, obs, tests, fresh):
     return out, draws, raw, rates_after, fc
 
 
+COPY_NOTES = {}
+
+
+def copied(case, x, what):
+    """(h) COPIES BEFORE USE: the object handed to the tests is copy.copy / copy.deepcopy / a pickle round trip of the one
+    that was built; the result must be that of the original.  A form the tree under test cannot carry out is skipped
+    and counted (COPY_NOTES), never judged."""
+    form = case.get("copy_form")
+    if not form:
+        return x
+    import copy
+    import pickle
+    try:
+        y = copy.copy(x) if form == "copy" else (copy.deepcopy(x) if form == "deepcopy" else pickle.loads(pickle.dumps(x)))
+    except Exception as e:
+        key = f"copy-unsupported:{form}:{what}:{type(e).__name__}"
+        COPY_NOTES[key] = COPY_NOTES.get(key, 0) + 1
+        return x
+    key = f"copy:{form}:{what}"
+    COPY_NOTES[key] = COPY_NOTES.get(key, 0) + 1
+    return y
+
+
+def rejected_call_first(case, fc, obs):
+    """(i) STATE AFTER A CAUGHT EXCEPTION: a call on the SAME forecast object that the library rejects (the observed
+    catalog is not a catalog) - after a COMPLETE pass over the forecast (number test) or before any pass (magnitude
+    test); the caller catches the exception and goes on with legal calls, whose results must be those of a fresh object.
+    (An exception in the MIDDLE of a pass is C13's known finding D27 and is not produced here.)"""
+    from csep.core import catalog_evaluations as ce
+    try:
+        with quiet():
+            if case["bad_first"] == "n-none":
+                ce.number_test(fc, None, verbose=False)
+            else:
+                ce.magnitude_test(fc, None, verbose=False)
+    except Exception:
+        pass
+
+
 def run_impl(case, mode, tmpdir):
     """runs the SESSION of the case (session_plan). Returns the list of segments
     dict(who, view (the case as that segment's tests see it), out, draws, raw, rates_after) and the magnitude edges."""
     region, origins, mags = build_region(case)
-    obs = make_observation(case, region, origins, mags)
+    obs = copied(case, make_observation(case, region, origins, mags), "observation")
 
     def fresh_A():
         f = build_forecast(case, mode, region, origins, mags, tmpdir)
+        if mode.startswith("memory"):
+            f = copied(case, f, "forecast")      # (h) a generator-backed forecast cannot be copied: list-backed ones only
         apply_premut(case, mode, f, obs, region, origins, mags)
+        if case.get("bad_first") and not case.get("premut"):
+            rejected_call_first(case, f, obs)
         return f
     sess = case.get("session") or {}
     caseB = None
@@ -832,6 +958,9 @@ def run_impl(case, mode, tmpdir):
     def fresh_B():
         return build_forecast(caseB, "memory" if sess["B"].get("n_cat") else "memory-noncat", region, origins, mags, tmpdir)
     fcs = {"A": fresh_A(), "B": None}
+    j_mem = case.get("obs_is_member")
+    if j_mem is not None and mode.startswith("memory") and isinstance(getattr(fcs["A"], "catalogs", None), list):
+        obs = fcs["A"].catalogs[j_mem]          # (l) ONE object in two roles: the observation IS a catalog of the forecast
     viewA = effective_case(case, mode)
     cur_obs_view = {}
     segs = []
@@ -1488,6 +1617,17 @@ def check_case(run, drv, pending, case):
     if case.get("obs_region"):
         run.count("obs-region:equal-copy")
     run.count("call-form:" + case.get("call_form", "kw"))
+    if case.get("user_catalogs") and case["mode"].startswith("memory"):
+        run.count("user-catalog-subclass" + (":with-carried-filters" if case.get("fc_filter") else ""))
+    if case.get("errstate"):
+        run.count("errstate:" + case["errstate"])
+    if case.get("obs_is_member") is not None:
+        run.count("observation-is-a-catalog-of-the-forecast")
+    if case.get("bad_first") and not case.get("premut"):
+        run.count("rejected-call-first:" + case["bad_first"])
+    for k_, n_ in COPY_NOTES.items():
+        run.count(k_, n_)
+    COPY_NOTES.clear()
     if case.get("noisy_edges"):
         run.count("noisy-magnitude-edges")
     if case.get("fc_filter"):
